@@ -1121,11 +1121,42 @@ class Gen:
         return s
 
     # -- op choice
+    def start_fault_script(self, actor: str) -> None:
+        """A call WITH options fails part-way (property hook raises), then a default serialization is shipped to a
+        fresh reader process: whatever the failed call left behind must not be in that document."""
+        w = self.w
+        r = self.r("fscript")
+        t1, t2 = self.out() + "a", self.out() + "b"
+        origin = r.choice([k for k in U.ORIGIN_KEYS if k != "no"])
+        fmt = r.choice(self.cfg["formats"])
+        carrier = {"c": "Seq", "p": {}, "ch": {"items": [{"c": "Carrier", "p": {"tok": "t"}, "ch": {}, "o": origin}, {"c": "LeafA", "p": {"a": "q"}, "ch": {}, "o": origin}]}, "o": origin}
+        plain = {"c": "Pair", "p": {}, "ch": {"left": {"c": "LeafB", "p": {"a": "x"}, "ch": {}, "o": origin}}, "o": origin}
+        deser_side = r.random() < 0.5
+        p0, p1 = self.out() + "p", self.out() + "q"
+        steps: list[Any] = [lambda a: {"op": "construct", "spec": carrier, "out": t1}, lambda a: {"op": "construct", "spec": plain, "out": t2}]
+        if deser_side:
+            steps += [
+                lambda a: {"op": "ser", "n": {"h": t1, "path": []}, "fmt": fmt, "opts": "idx", "out": p0} if t1 in w.handles else None,
+                lambda a: {"op": "drop", "h": t1} if t1 in w.handles else None,
+                lambda a: {"op": "deser", "p": p0, "entry": "ASTNode", "out": self.out(), "fault": {"site": "tok_deser", "k": 1}} if p0 in w.handles else None,
+            ]
+        else:
+            steps += [lambda a: {"op": "ser", "n": {"h": t1, "path": []}, "fmt": fmt, "opts": "idx", "out": p0, "fault": {"site": "tok_ser", "k": 1}} if t1 in w.handles else None]
+        steps += [
+            lambda a: {"op": "ser", "n": {"h": t2, "path": []}, "fmt": fmt, "opts": None, "out": p1} if t2 in w.handles else None,
+            lambda a: {"op": "peer_roundtrip", "p": p1} if p1 in w.handles else None,
+        ]
+        self.script = steps
+        self.w.stats.probes["fault_script_started"] += 1
+
     def start_script(self, actor: str) -> None:
         """A persister's multi-step script, other actors' ops interleave in its gaps: serialize a node whose id carries
         a collision suffix, lose every twin (crash), read it back, then update it functionally."""
         w = self.w
         r = self.r("script")
+        if self.cfg["prop"] == "C04" and self.cfg["faults"] and w.peer is not None and r.random() < 0.4:
+            self.start_fault_script(actor)
+            return
         cands = [n for n, h in w.handles.items() if h.kind == "node" and _SUFFIX.match(h.obj.id) and w.inf(h.obj).reg and len(walk(h.obj)) <= 8 and cname(h.obj) in U.CLS]
         if not cands:
             # make one: a twin of some small registered tree
